@@ -419,19 +419,22 @@ func MulticodeDecode(s []byte) *DenseGraph {
 //MulticodeDecodeMultiple returns an array of graphs encoded in s.
 func MulticodeDecodeMultiple(s []byte) []*DenseGraph {
 	graphs := make([]*DenseGraph, 0)
-	startOfGraph := 0
-	var numberOfVerticesLeft byte
-	for i := 0; i < len(s); i++ {
-		if numberOfVerticesLeft == 0 {
-			numberOfVerticesLeft = s[i] - 1
-			startOfGraph = i
-		}
-		if s[i] == 0 {
-			numberOfVerticesLeft--
-			if numberOfVerticesLeft == 0 {
-				graphs = append(graphs, MulticodeDecode(s[startOfGraph:i+1]))
+	for i := 0; i < len(s); {
+		//The encoding of a graph on n vertices is the byte n followed by n - 1 lists which each end with a 0. In particular, graphs with at most 1 vertex are encoded by a single byte.
+		startOfGraph := i
+		numberOfListsLeft := int(s[i]) - 1
+		i++
+		for numberOfListsLeft > 0 && i < len(s) {
+			if s[i] == 0 {
+				numberOfListsLeft--
 			}
+			i++
 		}
+		if numberOfListsLeft > 0 {
+			//The last graph is incomplete.
+			break
+		}
+		graphs = append(graphs, MulticodeDecode(s[startOfGraph:i]))
 	}
 	return graphs
 }
